@@ -12,7 +12,7 @@ Exits (and enters) suspend; both executions run as tasks of the same simulated l
 from ..loop import PAUSE
 from ..runner import Outcome
 from ..tools import lib
-from .common import COMPONENTS_BASE, run_sim, new_sim, finish_outcome
+from .common import set_interrupts, COMPONENTS_BASE, run_sim, new_sim, finish_outcome
 
 PID = "C14"
 LEVEL = "exploration"
@@ -324,7 +324,7 @@ def execute(st, ctx):
     ch = st.scenario
     sc = gen(ch)
     sim = new_sim(st, interrupts=False)
-    sim.interrupt_den = (0, 0, 5, 2)[sc.interrupt]
+    set_interrupts(sim, (0, 0, 5, 2)[sc.interrupt])
     env_a = Env(sim, "stack")
     res_a, res_r = [], []
     behaves = [e.behave for e in sc.entries]
